@@ -386,13 +386,20 @@ func c14Run(rt *rapid.T, p c14Plan, seed string) (m *lm, log []string, nontrivia
 			if g := sim.GuardT(30*time.Second, func() error { ea = src.Book.AddLeaf(bg, &a); eb = tgt.Book.AddLeaf(bg, &b); return nil }); g != nil {
 				return m, log, nontrivial, "follow-up: " + g.Error()
 			}
+			if weightRule(ea) != weightRule(eb) {
+				// root cause: LoadDag does not transfer the peer's weight/throughput state, so the weight rule (and only
+				// it) decides differently on the two nodes - also when both refuse, for different reasons and dropping
+				// different tentative tips. Nothing after this point can be compared.
+				weightDiverged = true
+				if (ea == nil) == (eb == nil) {
+					m.label("c14:weight-rule-divergence-same-outcome")
+					break
+				}
+			}
 			if (ea == nil) != (eb == nil) {
 				sig := "follow-up-outcome-differs"
-				if (ea != nil && strings.Contains(ea.Error(), "minimal weight")) || (eb != nil && strings.Contains(eb.Error(), "minimal weight")) {
-					// root cause: LoadDag does not transfer the peer's weight/throughput state, so the weight rule
-					// (and only it) decides differently on the two nodes
+				if weightDiverged {
 					sig = "weight-state-not-transferred"
-					weightDiverged = true
 				}
 				m.addViol("C14", sig, "follow-up %s %s: the peer answers %v, the loaded node %v", kind, m.describe(v), ea, eb)
 			} else if errors.Is(ea, accountant.ErrParentDoesNotExists) != errors.Is(eb, accountant.ErrParentDoesNotExists) {
